@@ -49,6 +49,8 @@ def run(rep):
     pitch_pairs(rep, fns)
     policies(rep, fns)
     subrect(rep, fns)
+    partial_rows(rep, wd)
+    tiff_subimage(rep, fns)
 
 
 def must_call(rep, fns):
@@ -317,3 +319,112 @@ def subrect(rep, fns):
             else:
                 rep.violation("S6-subrect", key, W + "extension/io/%s/detail/read.hpp:%s" % (fmt, c.get("line")), {"begin": bdef[:200], "end": edef[:200]})
     rep.floor("obligations:S6", 8)
+
+
+def partial_rows(rep, wd):
+    """S7: the file position a sub-rectangle read takes output row y from is the position the full read takes row
+    top_left.y + y from (abstract execution of the reader with symbolic settings, see p12.IoExec)"""
+    from . import p12
+    from .ir.poly import Poly
+    rep.rule("S7 for bmp/pnm/targa: with settings (X0,Y0,DX,DY) the reader takes output row y from the file position the full read takes image row Y0+y from (polynomials in W,H,Y0,DY,y)")
+    d = C.astdump(os.path.join(C.DRIVERS, "c12_driver.cpp"), os.path.join(wd, "c12.json"), p12.PATTERNS, defs=C.IO_DEFS)
+    if d.get("errors"):
+        raise C.AnalysisBroken("drivers/c12_driver.cpp has compile errors")
+    fns = d["functions"]
+    y = Poly.atom("y")
+
+    def positions(r):
+        rev = p12.dedupe(r["rx"].events)
+        rrows = [e for e in rev if e["kind"] == "rawread" and e["loop"]]
+        rstores = [e for e in rev if e["kind"] == "rowstore"]
+        main = [e for e in rrows if any(s["loop"] == e["loop"] for s in rstores)]
+        if len(main) != 1 or r["astop"] is not None:
+            return None
+        rrow = main[0]
+        rstore = [s for s in rstores if s["loop"] == rrow["loop"]][0]
+        if rstore["y"] != Poly.atom(rrow["loop"][0]["iv"]):
+            return None
+        seeks_in = [e for e in rev if e["kind"] == "seek" and e["loop"] == rrow["loop"]]
+        if seeks_in and seeks_in[0]["to"] is not None:
+            return seeks_in[0]["to"].subst({rrow["loop"][0]["iv"]: y})
+        seeks_before = [e for e in rev if e["kind"] == "seek" and not e["loop"]]
+        start = seeks_before[-1]["to"] if seeks_before else r["hdr_bytes"]
+        if start is None:
+            return None
+        for e in rrows:
+            if e is rrow or e["fn"] != rrow["fn"]:
+                continue
+            # rows read and discarded before the main loop
+            trip = e["loop"][0].get("trip")
+            if trip is None or e["size"] is None or len(e["loop"]) != 1:
+                return None
+            start = start + trip * e["size"]
+        return p12.row_position(rrow, start)
+    for fmt, pix in (("bmp", "rgb8"), ("bmp", "rgba8"), ("pnm", "rgb8"), ("pnm", "gray8"), ("pnm", "gray1"), ("targa", "rgb8"), ("targa", "rgba8")):
+        full = positions(p12.run_case(fns, fmt, pix))
+        part = positions(p12.run_case(fns, fmt, pix, partial=True))
+        rep.count("obligations:S7")
+        key = "S7:%s:%s" % (fmt, pix)
+        if full is None or part is None:
+            rep.fail_analysis("%s: row position of the reader not recognised (full %r, partial %r)" % (key, full, part))
+            continue
+        want = full.subst({"y": Poly.atom("Y0") + y})
+        if part == want:
+            rep.ok("S7-partial-rows", key, {"position_of_output_row_y": repr(part)})
+        else:
+            rep.violation("S7-partial-rows", key, W + "extension/io/%s/detail/read.hpp" % fmt,
+                          {"partial_read_takes_row_y_from": repr(part), "full_read_takes_row_Y0+y_from": repr(want),
+                           "problem": "a sub-rectangle read does not return the crop of the full image: the rows come from other file rows"})
+    rep.floor("obligations:S7", 7)
+
+
+def tiff_subimage(rep, fns):
+    from . import p12
+    rep.rule("S8a tiff tile readers: the extent of an edge tile is `(origin + tile < extent) ? tile : extent - origin`")
+    p12.remaining_extent(rep, fns, "S8a-edge-tile", "S8a", lambda f: "reader::" in f["name"], 4)
+    rep.rule("S8b read_tiled_data_subimage: corners are inclusive (origin + extent - 1) and a tile is skipped exactly when the inclusive rectangles are disjoint: "
+             "tile.tl.x > view.lr.x || tile.tl.y > view.lr.y || tile.lr.x < view.tl.x || tile.lr.y < view.tl.y")
+    done = False
+    for f in fns:
+        if not f["name"].endswith("reader::read_tiled_data_subimage") or done:
+            continue
+        done = True
+        decl = {}
+        for d, _ in R.find(f["body"], lambda x: x.get("k") == "Decl"):
+            for dd in d["decls"]:
+                if dd.get("name") and dd.get("init") is not None:
+                    decl[dd["name"]] = R.key(dd["init"])
+        rep.count("obligations:S8b")
+        want_c = {"tile_top_left": "point{x,y}", "view_top_left": "point{subimage_x,subimage_y}"}
+        lr_t, lr_v = decl.get("tile_lower_right", ""), decl.get("view_lower_right", "")
+        incl = lr_t.replace(" ", "") == "point_t{((x+current_tile_width)-1),((y+current_tile_length)-1)}" and \
+            lr_v.replace(" ", "") == "point_t{((subimage_x+subimage_width)-1),((subimage_y+subimage_height)-1)}" and \
+            decl.get("tile_top_left", "").replace(" ", "") == "point_t{x,y}" and decl.get("view_top_left", "").replace(" ", "") == "point_t{subimage_x,subimage_y}"
+        conts = [p for c, p in R.find(f["body"], lambda x: x.get("k") == "Continue")]
+        got = None
+        for c, p in R.find(f["body"], lambda x: x.get("k") == "If"):
+            th = R.strip(c.get("then"))
+            if th is not None and R.find(th, lambda x: x.get("k") == "Continue") and not R.find(th, lambda x: x.get("k") == "Call"):
+                got = set()
+                def disj(n):
+                    n = R.strip(n)
+                    while n.get("k") == "Paren":
+                        n = R.strip(n["e"])
+                    if n.get("k") == "Binary" and n.get("op") == "||":
+                        disj(n["l"]); disj(n["r"])
+                    elif n.get("k") == "Binary":
+                        got.add(R.norm_cmp(n["op"], R.key(n["l"]), R.key(n["r"])))
+                    else:
+                        got.add(("?", R.key(n), ""))
+                disj(c["cond"])
+        want = {R.norm_cmp(">", "tile_top_left.x", "view_lower_right.x"), R.norm_cmp(">", "tile_top_left.y", "view_lower_right.y"),
+                R.norm_cmp("<", "tile_lower_right.x", "view_top_left.x"), R.norm_cmp("<", "tile_lower_right.y", "view_top_left.y")}
+        key = "S8b:tiff:read_tiled_data_subimage:overlap test"
+        if not incl or got is None:
+            rep.fail_analysis("S8b: corner definitions or the skip test of read_tiled_data_subimage have an unrecognised shape (%s / %s)" % (lr_t, lr_v))
+        elif got == want:
+            rep.ok("S8b-tile-overlap", key, sorted(map(str, got)))
+        else:
+            rep.violation("S8b-tile-overlap", key, R.fn_where(f), {"skip_condition": sorted(map(str, got)), "disjointness_of_inclusive_rectangles": sorted(map(str, want)),
+                                                                   "problem": "a tile that shares exactly one row/column with the requested rectangle is skipped (or a disjoint one processed): the sub-rectangle read differs from the crop of the full read"})
+    rep.floor("obligations:S8b", 1)
